@@ -41,6 +41,7 @@ pub fn add_stats(a: &mut Stats, b: &Stats) {
     a.nodes += b.nodes;
     a.worlds_confirmed += b.worlds_confirmed;
     a.naf_calls += b.naf_calls;
+    a.normalized_fallbacks += b.normalized_fallbacks;
 }
 
 thread_local! {
